@@ -6,6 +6,7 @@ from typing import TYPE_CHECKING
 
 import networkx as nx
 import numpy as np
+from ase.constraints import FixAtoms
 from ase.neighborlist import neighbor_list
 
 if TYPE_CHECKING:
@@ -113,6 +114,15 @@ def reinsert_atoms(atoms: Atoms, new_atoms: Atoms, indices: IntegerArray) -> Non
     """
     len_atoms = len(atoms)
     len_new_atoms = len(new_atoms)
+
+    # index-based constraints were renumbered when the atoms were deleted: renumber them back
+    kept = np.ones(len_atoms + len_new_atoms, dtype=bool)
+    kept[indices] = False
+    kept_indices = np.flatnonzero(kept)
+
+    for constraint in atoms.constraints:
+        if isinstance(constraint, FixAtoms):
+            constraint.index = kept_indices[constraint.index]
 
     for name in atoms.arrays:
         array = (
